@@ -1030,7 +1030,9 @@ def run(ctx, only_modules=None):
         f = None
         if is_enum_numbering_case(c['M']):
             f = ctx.match_finding(lambda f: any(i.startswith('enum-numbering') for i in finding_ids(f)))
-        elif 'accepted' in why and is_markcut_case(c['M']):
+        elif 'accepted' in why and (is_markcut_case(c['M']) or ' cut ' in (' ' + str(c.get('model') or '') + ' ')):
+            # the same root cause in any shape: the Lean model of the fixer (which mirrors the TM_RECURSION marks) reports that
+            # a descent was cut by a mark while the tag sets were compared, and asn1c accepts what the X.680 oracle rejects
             f = ctx.match_finding(lambda f: 'typeref-then-choice-ref-missed' in finding_ids(f))
         if f:
             continue
